@@ -407,6 +407,7 @@ class FnBlock:
         self.nth = 0
         self.rename = None
         self.sigsub = []
+        self.bodysub = []
 
 
 def render_fn(repo: Repo, fb: FnBlock, rules: Counter, info: dict, canary: bool = False) -> str:
@@ -432,6 +433,12 @@ def render_fn(repo: Repo, fb: FnBlock, rules: Counter, info: dict, canary: bool 
         out.append('{ unimplemented!() }')
         return '\n'.join(out) + '\n'
     body = apply_rewrites(body, rules)
+    # S3 / F1: explicit textual substitutions declared in the template (each must occur)
+    for (a, b) in fb.bodysub:
+        if a not in body:
+            raise LostAnchor(f'body text `{a}` of fn {fb.name} not found')
+        rules['F1'] += body.count(a)
+        body = body.replace(a, b)
     # hints & loop invariants: collect insertions on the rewritten body
     m = mask(body)
     ins = []  # (pos, text)
@@ -610,6 +617,10 @@ def build_unit(template_path: str, repo_root: str, verif_root: str, canary: bool
                 elif s2.startswith('//@attr '):
                     flush()
                     fb.attrs.append(s2[len('//@attr '):])
+                elif s2.startswith('//@bodysub '):
+                    flush()
+                    a, b = s2[len('//@bodysub '):].split('=>')
+                    fb.bodysub.append((a.strip(), b.strip()))
                 elif s2.startswith('//@sigsub '):
                     flush()
                     a, b = s2[len('//@sigsub '):].split('=>')
